@@ -59,7 +59,7 @@ type c06Exp struct {
 	// closedRepeat: a Shutdown returned nil after an EARLIER Shutdown had been cut short by its context
 	// (that call gives up on the poll goroutine, which may still be exporting: recorded finding)
 	closedRepeat bool
-	failed   int // exports that answered with an error (injected fault)
+	failed       int // exports that answered with an error (injected fault)
 }
 
 const c06Attrs = 7 // > 5 so that the record's `back` slice is used
